@@ -116,6 +116,10 @@ def run(ctx):
         cases, _ = sc.slice_cases(cases, 3000 if quick else None, key="stateci")
         run_state_family(ctx, cases, "state-level sequences len 2 case-insensitive path_style=%s" % ps)
         sim = gen_state(ctx, 5 if quick else 7, [0, 1], ps, simulate=(8 if quick else 60, ctx.seed + 3))
+        # the simulated (seed-dependent) family stays out of the stratum of the listed kids-update defects (nested paths:
+        # one id seen at P and below P); that stratum is covered by the exhaustive length-2 family, whose verdict cannot depend
+        # on the seed
+        sim = [c for c in sim if "NESTED_PATHS" not in state_tags(c)]
         sim, _ = sc.slice_cases(sim, 3000 if quick else 15000, ctx.seed + 2)
         run_state_family(ctx, sim, "state-level sequences simulated path_style=%s" % ps)
     flavors = ["oid/oid", "path/oidf"] if quick else ["oid/oid", "path/oidf", "oidf/path", "path/path"]
@@ -123,7 +127,7 @@ def run(ctx):
             ("st_case2", "case", [1], 2, None, 300 if quick else None)]
     for name, uni, sides, nops, mode, limit in fams:
         if mode == "sim":
-            cases = sc.generate(ctx, name, sides, nops, GAPS, uni, simulate=(30, ctx.seed + 13))
+            cases = sc.generate(ctx, name, sides, nops, GAPS, uni, filt="clean", simulate=(30, ctx.seed + 13))
         else:
             cases = sc.generate(ctx, name, sides, nops, GAPS, uni)
         cases, _ = sc.slice_cases(cases, limit, key=name)
